@@ -6,7 +6,10 @@ every statement of the shared-access functions (region R1) or at every statement
 Oracle: no exception, no deadlock, every result equals the single-threaded result, loaders stay correct afterwards.
 """
 import os
+import sys
+import threading
 import time
+import types
 from dataclasses import dataclass
 from typing import List, Optional
 
@@ -123,11 +126,43 @@ SRC_OBJ = Src(SrcInner(1), [SrcInner(2)])
 def _fresh_world():
     """every execution starts from the same process image"""
     env.reset_process_caches()
-    _compiler._counter._lock = sched.CoopLock()
-    if hasattr(_searching_retort, "RLock"):
-        _searching_retort.RLock = lambda: sched.CoopLock(reentrant=True)
-    if hasattr(_searching_retort, "Lock"):
-        _searching_retort.Lock = lambda: sched.CoopLock()
+    _cooperative_locks()
+
+
+_LOCK_TYPES = (type(threading.Lock()), type(threading.RLock()))
+
+
+def _cooperative_locks():
+    """Every real lock of the library would block the one running thread forever: lock factories imported into library modules
+    and lock instances held by module-level objects are found by scanning (not by name) and replaced by cooperative locks whose
+    acquire is a scheduling point."""
+    for name, mod in list(sys.modules.items()):
+        if not (name == "adaptix" or name.startswith("adaptix.")):
+            continue
+        for attr, val in list(vars(mod).items()):
+            if val is threading.Lock or getattr(val, "_verif_coop", None) == "Lock":
+                setattr(mod, attr, _coop_lock_factory)
+            elif val is threading.RLock or getattr(val, "_verif_coop", None) == "RLock":
+                setattr(mod, attr, _coop_rlock_factory)
+            elif not isinstance(val, (type, types.ModuleType, types.FunctionType)) and hasattr(val, "__dict__") \
+                    and type(val).__module__.startswith("adaptix"):
+                for a2, v2 in list(vars(val).items()):
+                    if isinstance(v2, (*_LOCK_TYPES, sched.CoopLock)):
+                        setattr(val, a2, sched.CoopLock(reentrant=isinstance(v2, _LOCK_TYPES[1]) or getattr(v2, "reentrant", False)))
+            elif isinstance(val, _LOCK_TYPES):
+                setattr(mod, attr, sched.CoopLock(reentrant=isinstance(val, _LOCK_TYPES[1])))
+
+
+def _coop_lock_factory():
+    return sched.CoopLock()
+
+
+def _coop_rlock_factory():
+    return sched.CoopLock(reentrant=True)
+
+
+_coop_lock_factory._verif_coop = "Lock"
+_coop_rlock_factory._verif_coop = "RLock"
 
 
 def h1():
